@@ -36,6 +36,14 @@ def main():
         meta["ran"]["demo_with_change_exit"] = r1.returncode
         t = sh(f"cd {wt} && PYTHONPATH={wt}/src /venv/bin/python -m pytest -q -p no:cacheprovider {DESELECT} 2>&1 | tail -4")
         failed = [l for l in t.stdout.splitlines() if l.startswith("FAILED")]
+        # ComplexSketchTests::test_optimize fails about 1 time in 12 on the unchanged tree too: keep only repeatable failures
+        steady = []
+        for l in failed:
+            tid = l.split()[1]
+            again = [sh(f"cd {wt} && PYTHONPATH={wt}/src /venv/bin/python -m pytest -q -p no:cacheprovider {tid} 2>&1 | tail -1").stdout for _ in range(3)]
+            if all("failed" in a for a in again):
+                steady.append(l)
+        failed = steady
         meta["ran"]["unit_tests_failed"] = failed
         t0 = time.time()
         c = sh(f"cd {VERIF} && VERIF_REPO={wt} VERIF_NO_EVIDENCE=1 ./check {prop} --tier {tier}")
